@@ -76,6 +76,8 @@ def sort_classes(classes: list):
     """Sort classes in order of dependencies. The input is a list: in case of
     multiple classes with the same name, the last one is used.
     """
+    # a hybrid class stands for the struct it dresses
+    classes[:] = [getattr(cls, "_XoStruct", cls) for cls in classes]
     class_by_name = {
         cls.__name__: cls for cls in classes
     }  # cls.__name__ may repeat
